@@ -7,7 +7,7 @@ EXTENDS FunCheck, TLC, Json, IOUtils
 Traces == JsonDeserialize(IOEnv.TRACE_FILE)
 VARIABLES tid, l, verdict
 
-Check(e) == CheckFun(e)
+Check(e) == IF e.ev = "One" THEN CheckOne(e) ELSE CheckFun(e)
 
 Init == tid \in 1..Len(Traces) /\ l = 1 /\ verdict = "ok"
 Next == /\ verdict = "ok" /\ l <= Len(Traces[tid])
